@@ -95,7 +95,7 @@ class Below:
     def __call__(self, a, b):
         return self.rel(a, b)
 
-    def facts(self, which=("refl", "trans", "edge", "fwd", "bwd", "mono", "chain", "nodes")):
+    def facts(self, which=("refl", "trans", "edge", "fwd", "bwd", "bwd_edge", "mono", "chain", "nodes")):
         v, K, bel, nxt = self.v, self.K, self.rel, self.nxt
         fwd_inv = forall([x_, y_], IMP(v.E(x_, y_), tm(v, K, x_) < tm(v, K, y_)))
         in1 = forall([x_], v.idg(x_) <= 1)
@@ -105,6 +105,8 @@ class Below:
             "edge": forall([a_, b_], IMP(v.E(a_, b_), bel(a_, b_))),
             "fwd": forall([a_, b_], IMP(AND(bel(a_, b_), a_ != b_), AND(v.E(a_, nxt(a_, b_)), bel(nxt(a_, b_), b_)))),
             "bwd": forall([a_, b_], IMP(AND(bel(a_, b_), a_ != b_), AND(v.idg(b_) >= 1, IMP(v.idg(b_) == 1, bel(a_, v.par(b_)))))),
+            # below_bwd + InLe1: the unique parent of a proper descendant is a descendant too
+            "bwd_edge": IMP(in1, forall([a_, b_, c_], IMP(AND(bel(c_, b_), v.E(a_, b_), c_ != b_), bel(c_, a_)))),
             "nodes": forall([a_, b_], IMP(AND(bel(a_, b_), a_ != b_), AND(v.N(a_), v.N(b_)))),
             "mono": IMP(fwd_inv, forall([a_, b_], IMP(AND(bel(a_, b_), a_ != b_), tm(v, K, a_) < tm(v, K, b_)))),
             "chain": IMP(in1, forall([a_, b_, c_], IMP(AND(bel(a_, c_), bel(b_, c_)), OR(bel(a_, b_), bel(b_, a_))))),
